@@ -39,6 +39,18 @@ class CBloomDriver:
         self.cells = {key: [h % m for h in self.obj.hashes(key)[:k]] for key in self.pool}
         self.seen = {self._mkey(): bytes(self.obj)}
 
+    def _alt_hashes(self, k):
+        """hash list for add_alt / remove_alt: every other time computed for a LARGER depth (same leading values by prefix
+        stability) - only the first number_hashes entries may matter"""
+        o = self.obj
+        hs = o.hashes(k)
+        if self.nops % 2 == 0:
+            longer = o.hashes(k, len(hs) + 2)
+            if longer[: len(hs)] == hs:
+                self.feats.add("alt_api_longer_list")
+                return longer
+        return hs
+
     def _mkey(self):
         return tuple(sorted((repr(k), v) for k, v in self.true.items() if v))
 
@@ -146,7 +158,7 @@ class CBloomDriver:
         if kind == "add":
             n = op[2]
             if alt:
-                ctx.call(self.noexc, o.add_alt, o.hashes(k), n)
+                ctx.call(self.noexc, o.add_alt, self._alt_hashes(k), n)
             else:
                 ctx.call(self.noexc, o.add, k, n)
             self.true[k] += n
@@ -164,7 +176,7 @@ class CBloomDriver:
                     return self.step(["add", op[1], 1 + op[2] % 3])
             shared = any(j != k and self.true[j] > 0 and set(self.cells[j]) & set(self.cells[k]) for j in self.pool)
             if alt:
-                ctx.call(self.noexc, o.remove_alt, o.hashes(k), n)
+                ctx.call(self.noexc, o.remove_alt, self._alt_hashes(k), n)
             else:
                 ctx.call(self.noexc, o.remove, k, n)
             self.true[k] -= n
